@@ -2,6 +2,7 @@
 recording endpoints built on the real asyncfix classes, projection to the abstract state
 the TLA+ specs talk about.  No logic about what is *correct* lives here."""
 import asyncio
+import os
 import hashlib
 import heapq
 import logging
@@ -464,13 +465,22 @@ class Endpoint:
         if journal:
             jp = getattr(self, "jpath", None)
             if jp:
-                # durable view: what a second connection to the journal file sees (committed state only)
+                # durable view: the journal as a process started now would find it - a snapshot of the file (and of its rollback
+                # journal, if a transaction is open) opened by a fresh Journaler; no lock is shared with the live connection
+                import shutil
                 from asyncfix.journaler import Journaler as J
-                j2 = J(jp)
+                snap = jp + ".snap"
+                shutil.copyfile(jp, snap)
+                if os.path.exists(jp + "-journal"):
+                    shutil.copyfile(jp + "-journal", snap + "-journal")
+                j2 = J(snap)
                 try:
                     p.update(project_journal(j2, s))
                 finally:
                     del j2          # Journaler.__del__ closes the connection
+                    for f in (snap, snap + "-journal"):
+                        if os.path.exists(f):
+                            os.remove(f)
             else:
                 p.update(project_journal(self.j, s))
         return p
